@@ -1,4 +1,5 @@
 import PlaybackProofs.RecorderCore
+import PlaybackProofs.ReplayEnd
 /-!
 # C02 — Replay answers every interception from the recording or an explicit policy
 
@@ -108,6 +109,24 @@ theorem C02_replay_after_replays (ao : AliasOracle) (cfg : OpCfg) (id : Nat) (p 
     simp only [List.foldl_cons]
     rw [ih _ (runPlay_spec ao o.1 s o.2.1 o.2.2 h).1]
     exact (runPlay_core ao cfg id p _ _ (runPlay_restores_core ao o.1 s o.2.1 o.2.2 h)).1
+
+/-- "Each call is answered from the recording", whole run: how a replayed program ends is `replayEnd` - a function of the
+recording, the starting output counters and the program alone, in which every input is answered by `inAnswerR` (the decision
+table above: key error, first present key in fallback order, substitute, missing-key error), every output by `outAnswerR`
+(recorded result, default, missing-key error) and `play_data` by `playDataR`. Nothing else the recorder or cassette holds
+(journal, log, enable switch, stored recordings, sampling stream) can influence a replay. Premise: no site opted in to
+run-original (then a body runs by request and its answer is the body's). -/
+theorem C02_answered_from_recording (r : Recording) (p : Prog)
+    (hq : p.All (fun cfg _ _ => cfg.runOriginal = false) (fun _ _ _ => True)) (t : St) (h : Replaying r t) :
+    (exec t p).2 = replayEnd r t.counter p :=
+  replay_end_is_answered r p hq t h
+
+/-- … so two replays of one recording from recorder states that agree on nothing but the output counters end alike -/
+theorem C02_replay_depends_on_recording_only (r : Recording) (p : Prog)
+    (hq : p.All (fun cfg _ _ => cfg.runOriginal = false) (fun _ _ _ => True)) (t t' : St)
+    (h : Replaying r t) (h' : Replaying r t') (hc : t.counter = t'.counter) :
+    (exec t p).2 = (exec t' p).2 := by
+  rw [replay_end_is_answered r p hq t h, replay_end_is_answered r p hq t' h', hc]
 
 /-! Non-vacuity -/
 example : Replaying ⟨0, [], default⟩ { playback := some ⟨0, [], default⟩ } := ⟨rfl, rfl, rfl⟩
